@@ -182,3 +182,18 @@ PROPS["C07"] = {
         "a case is reported as a hang only if it has not returned after 140 s",
     ],
 }
+
+PROPS["C04"] = {
+    "level": "exploration",
+    "runs": [run("TestC04", (1500, 6), (50000, 16))],
+    "rule": "cases = rule sets and requests from the C01 (matching) and C09 (scoring) generators, biased to many values under few names, "
+            "several rules sharing transformation prefixes over one collection, optional SecArgumentsLimit below the number of arguments; "
+            "each case is executed 12 times (6 fresh WAFs, 6 consecutive transactions on one WAF) and the canonical outcomes (interruption, "
+            "ordered fired ids, per-rule multiset of triples, TX map, HIGHEST_SEVERITY) must be identical; the runtime's map iteration order "
+            "is the adversary; non-trivial = >=2 rules fire, >=1 transformation and a collection with >=3 entries and a repeated name",
+    "essential": {"all": ["kind:matching", "kind:scoring", ">=3-entries-with-repeated-name", "argument-count-above-limit", "interrupted"]},
+    "assumptions": COMMON_ASSUME + [
+        "a divergence that occurs with probability p per run survives 12 repetitions with probability (1-p)^12",
+        "order-sensitive effects (assigning %{MATCHED_VAR} over several matches) are not generated",
+    ],
+}
